@@ -596,6 +596,54 @@ fn job_metadata(_ctx: &EnumCtx) -> EnumResult {
     res
 }
 
+/// factory jobs round-trip: key (of every kind of encoding: empty, one byte, eight bytes, long), options (with
+/// and without a TTL) and message come back as they went in, as a cast and as a call
+fn job_round_trip(_ctx: &EnumCtx) -> EnumResult {
+    use ractor::factory::{Job, JobKey, JobOptions};
+    let mut res = EnumResult::default();
+    fn one<K: JobKey + PartialEq + std::fmt::Debug>(key: K, ttl: Option<std::time::Duration>, msg: u64, res: &mut EnumResult) {
+        let what = format!("Job {{ key: {key:?}, ttl: {ttl:?}, msg: {msg} }}");
+        let job = Job::with_options(key.clone(), msg, JobOptions::new(ttl));
+        res.evaluations += 1;
+        res.states += 1;
+        res.distinct_nontrivial += 1;
+        let ser = std::panic::catch_unwind(std::panic::AssertUnwindSafe(|| <Job<K, u64> as Message>::serialize(job)));
+        let Ok(Ok(sm)) = ser else {
+            res.violations.push((format!("{what} does not serialize"), json!({})));
+            return;
+        };
+        let back = std::panic::catch_unwind(std::panic::AssertUnwindSafe(|| <Job<K, u64> as Message>::deserialize(sm)));
+        match back {
+            Ok(Ok(j)) => {
+                *res.outcomes.entry("round-trip".to_string()).or_insert(0) += 1;
+                if j.key != key || j.msg != msg || j.options.ttl() != ttl {
+                    res.violations.push((format!("{what} came back as key {:?}, ttl {:?}, msg {}", j.key, j.options.ttl(), j.msg), json!({})));
+                }
+            }
+            Ok(Err(_)) => res.violations.push((format!("{what} serializes but its own encoding is rejected by the decoder"), json!({}))),
+            Err(_) => res.violations.push((format!("{what} serializes but decoding its own encoding panics"), json!({}))),
+        }
+    }
+    // (a TTL of exactly zero is not in the domain: the options' wire format reserves 0 for "no TTL", see DESIGN.md
+    // 10.6)
+    for ttl in [None, Some(std::time::Duration::from_nanos(1)), Some(std::time::Duration::from_millis(1500)), Some(std::time::Duration::from_secs(86_400))] {
+        for msg in [0u64, 42, u64::MAX] {
+            one((), ttl, msg, &mut res);
+            one(String::new(), ttl, msg, &mut res);
+            one("k".to_string(), ttl, msg, &mut res);
+            one("a-much-longer-routing-key-0123456789".to_string(), ttl, msg, &mut res);
+            one(Vec::<u8>::new(), ttl, msg, &mut res);
+            one(vec![0u8], ttl, msg, &mut res);
+            one(0u64, ttl, msg, &mut res);
+            one(u64::MAX, ttl, msg, &mut res);
+            one(7u8, ttl, msg, &mut res);
+        }
+    }
+    res.exhaustive = true;
+    res.note = "9 keys (empty, short, 8-byte and long encodings) x 4 TTLs x 3 messages".into();
+    res
+}
+
 // ------------------------------------------------------------------------------------------------
 // through a live actor: an undecodable payload is dropped, the actor keeps working
 // ------------------------------------------------------------------------------------------------
@@ -726,6 +774,7 @@ pub fn plan(tier: &str) -> Plan {
     units.push(Unit::enumerate("decoders/derived-enum", 16, Arc::new(move |c: &EnumCtx| decoders(c, dec_len))));
     units.push(Unit::enumerate("roundtrip/bytes-convertable", 1, Arc::new(round_trips)));
     units.push(Unit::enumerate("decoders/job-metadata", 1, Arc::new(job_metadata)));
+    units.push(Unit::enumerate("decoders/job-round-trip", 1, Arc::new(job_round_trip)));
     let cfg = ExecCfg::default();
     for local in [false, true] {
         for explosive in [false, true] {
